@@ -53,12 +53,12 @@ MUTANTS = [
     # ---- C05
     ('C05', 'supp/scope.py', r"return self\.parent\.names\n\n    @context_property", "return self.flow.names\n\n    @context_property", 'C05-R3'),
     ('C05', 'supp/scope.py', r"outer_names = set\(snames\)\.difference\(self\.scope\.locals\)", "outer_names = set(snames)", 'C05-R2'),
-    ('C05', 'supp/scope.py', r"if self\.scope\.globals and pscope is not self\.scope\.top:", "if False:", 'C05-R3'),
+    ('C05', 'supp/scope.py', r"rerouted = self\.scope\.globals and pscope is not self\.scope\.top", "rerouted = False", 'C05-R3'),
     ('C05', 'supp/scope.py', r"elif name\.name in self\.scope\.nonlocals:", "elif False:", 'C05-R3'),
     ('C05', 'supp/nast.py', r"self\.flow\.scope\.nonlocals\.update\(node\.names\)", "pass", 'C05-R5'),
-    ('C05', 'supp/nast.py', r"        self\.visit_in_flow\(node\.bases, cur\)\n(.*?)\n        scope = ClassScope\(cur\.scope, node, top=self\.top\)\n        cur\.add_name\(scope\)([^\n]*)", r"\1\n        scope = ClassScope(cur.scope, node, top=self.top)\n        cur.add_name(scope)\n        self.visit_in_flow(node.bases, scope.flow)", 'C05-R1'),
+    ('C05', 'supp/nast.py', r"        for b in node\.bases:\n            self\.visit\(b\)\n(.*?)\n        scope = ClassScope\(cur\.scope, node, top=self\.top\)\n        cur\.add_name\(scope\)([^\n]*)", r"\1\n        scope = ClassScope(cur.scope, node, top=self.top)\n        cur.add_name(scope)\n        self.visit_in_flow(node.bases, scope.flow)", 'C05-R1'),
     ('C05', 'supp/scope.py', r"        if name\.name in self\.scope\.globals:\n            self\.scope\.top\.add_global\(name\)\n", "        if False:\n            self.scope.top.add_global(name)\n", 'C05-R'),
-    ('C05', 'supp/scope.py', r"                if isinstance\(self\.scope, ClassScope\):\n                    return MergedDict\(snames\)\n                else:", "                if False:\n                    return MergedDict(snames)\n                else:", 'C05-R2'),
+    ('C05', 'supp/scope.py', r"                if isinstance\(self\.scope, ClassScope\):\n                    if not rerouted:", "                if False:\n                    if not rerouted:", 'C05-R2'),
     # ---- C06
     ('C06', 'supp/name.py', r"for b in reversed\(self\.bases\):\n            attrs\.update\(b\._attrs\)", "for b in self.bases:\n            attrs.update(b._attrs)", 'C06-R1'),
     ('C06', 'supp/name.py', r"        attrs\.update\(self\.cls\._attrs\)\n        attrs\.update\(self\._assigned_attrs\)", "        attrs.update(self._assigned_attrs)\n        attrs.update(self.cls._attrs)", 'C06-R1'),
@@ -88,8 +88,7 @@ MUTANTS = [
     # ---- C09
     ('C09', 'supp/server.py', r"        with self\.project\.check_changes\(\):\n            return assistant\.location", "        if True:\n            return assistant.location", 'C09-R2'),
     ('C09', 'supp/project.py', r"        self\._context_cache\.clear\(\)\n        yield", "        yield", 'C09-R2'),
-    ('C09', 'supp/project.py', r"            if m\.changed:\n                del self\._module_cache\[name\]\n            else:\n                self\._context_cache\[name\] = m\n                return m", "            self._context_cache[name] = m\n            return m", 'C09-R3'),
-    ('C09', 'supp/project.py', r"        self\._module_cache\[name\] = module\n        return module", "        self._module_cache[name] = module\n        self._context_cache[name] = module\n        self._last = module\n        return module", 'C09-R'),
+    ('C09', 'supp/project.py', r"            if m\.changed:\n                del self\._module_cache\[name\]\n            else:\n                self\._context_cache\[name\] = m\n                return m", "            self._context_cache[name] = m\n            return m", 'C09-R'),
     # ---- C10
     ('C10', 'supp/linter.py', r"        if getattr\(name, 'is_star', None\):\n            continue\n", "", 'C10-R1'),
     ('C10', 'supp/linter.py', r"                if name\.module == '__future__':\n                    continue\n", "", 'C10-R1'),
@@ -159,6 +158,10 @@ MUTANTS = [
 
 # behaviour-preserving refactorings: (property list, file, pattern, replacement)
 TWINS = [
+    # a module loaded during a request is valid for that request: remembering it in the per-request table changes nothing
+    # (listed as a mutant until the structural 'writers of _context_cache' rule was replaced by the history model)
+    (['C09', 'C04', 'C07'], 'supp/project.py', r"        self\._module_cache\[name\] = module\n        return module",
+     "        self._module_cache[name] = module\n        self._context_cache[name] = module\n        return module"),
     (['C01', 'C02', 'C03', 'C05'], 'supp/nast.py',
      r"        body = self\.visit_in_flow\(node\.body, self\.make_flow\('if', \[cur\]\)\)",
      "        if_flow = self.make_flow('if', [cur])\n        body = self.visit_in_flow(node.body, if_flow)"),
